@@ -1,4 +1,149 @@
 import VermouthProofs.C19
+/-!
+# C19 — mutation and modification requests hit exactly the residues they name
+
+Top-level statements about the model in `VermouthModel/C19.lean`
+(`parse_residue_spec`, `_format_resname`, `residue_matches`, `annotate_modifications`,
+`AnnotateMutMod.run_system` of `vermouth/processors/annotate_mut_mod.py`).
+Helper lemmas are in `VermouthProofs/C19.lean` and `VermouthProofs/C19_Run.lean`.
+-/
 namespace C19
-theorem placeholder : True := trivial
+
+/-! ## 1. The specification syntax -/
+
+/-- What `[<chain>-][<resname>][[#]<resid>]` can express: a chain that is non-empty and free of `-`,
+a residue name that is non-empty and free of `#` (and of `-` when no chain is given), a
+non-negative residue number, no insertion code. -/
+def wellFormed (s : Spec) : Bool :=
+  (match s.chain with
+   | none => !(s.resname.getD []).contains '-'
+   | some c => !c.isEmpty && !c.contains '-') &&
+  (match s.resname with
+   | none => true
+   | some n => !n.isEmpty && !n.contains '#') &&
+  (match s.resid with
+   | none => true
+   | some i => decide (0 ≤ i)) &&
+  s.icode.isNone
+
+/-- **parse ∘ format = id** on every specification the syntax can express; in particular a
+residue name ending in a digit is written with `#` (`PO4#3`, and `PO4#` without number) and read
+back as the same name. -/
+theorem parse_format (s : Spec) (h : wellFormed s = true) : parseSpec (formatSpec s) = .ok s := by
+  obtain ⟨chain, resname, resid, icode⟩ := s
+  simp only [wellFormed, Bool.and_eq_true] at h
+  obtain ⟨⟨⟨hc, hn⟩, hi⟩, hic⟩ := h
+  have hic' : icode = none := by simpa using hic
+  subst hic'
+  -- the digits
+  have hds : ∃ ds : Str, (∀ c ∈ ds, isDigit c = true) ∧
+      residText resid = ds ∧
+      ∀ ch name, assemble ch name ds = .ok { chain := ch, resname := nonEmpty name, resid := resid, icode := none } := by
+    cases resid with
+    | none => exact ⟨[], by simp, rfl, fun ch name => assemble_nil ch name⟩
+    | some i =>
+      have h0 : 0 ≤ i := by simpa using hi
+      refine ⟨natDigits i.natAbs, natDigits_all _, ?_, ?_⟩
+      · simp only [residText, intStr]; rw [if_neg (by omega)]
+      · intro ch name
+        rw [assemble_digits ch name _ (natDigits_ne_nil _) (natDigits_all _), natDigits_val]
+        have : ((i.natAbs : Nat) : Int) = i := by omega
+        rw [this]
+  obtain ⟨ds, hdall, hdeq, hasm⟩ := hds
+  -- the name
+  have hname : '#' ∉ resname.getD [] ∧ nonEmpty (resname.getD []) = resname := by
+    cases resname with
+    | none => simp [nonEmpty]
+    | some n =>
+      simp only [Bool.and_eq_true, Bool.not_eq_true', List.contains_eq_mem, decide_eq_false_iff_not] at hn
+      refine ⟨by simpa using hn.2, ?_⟩
+      simp [nonEmpty, hn.1]
+  have hfmt : formatSpec { chain := chain, resname := resname, resid := resid, icode := none } =
+      (if (chain.getD []).isEmpty then [] else chain.getD [] ++ ['-']) ++
+        (resname.getD [] ++ (if endsInDigit (resname.getD []) = true then ['#'] else []) ++ ds) := by
+    simp only [formatSpec, hdeq, Option.getD_none, List.append_nil, List.append_assoc]
+  rw [hfmt]
+  cases chain with
+  | some c =>
+    simp only [Bool.and_eq_true, Bool.not_eq_true', List.contains_eq_mem, decide_eq_false_iff_not] at hc
+    have hc2 : '-' ∉ c := by simpa using hc.2
+    simp only [Option.getD_some, hc.1]
+    unfold parseSpec
+    have e : ∀ rest : Str, (c ++ ['-']) ++ rest = c ++ '-' :: rest := by simp
+    rw [if_neg (by simp), e, splitFirst_append _ _ _ hc2]
+    simp only
+    rw [parseRes_format _ _ _ hname.1 hdall, hasm, hname.2]
+  | none =>
+    simp only [Option.getD_none, List.isEmpty_nil, if_true, List.nil_append]
+    have hc2 : '-' ∉ resname.getD [] := by simpa using hc
+    have hno : '-' ∉ resname.getD [] ++ (if endsInDigit (resname.getD []) = true then ['#'] else []) ++ ds := by
+      intro hm
+      simp only [List.mem_append] at hm
+      rcases hm with (hm | hm) | hm
+      · exact hc2 hm
+      · split at hm
+        · simp at hm
+        · simp at hm
+      · exact (isDigit_ne _ (hdall _ hm)).1 rfl
+    unfold parseSpec
+    rw [splitFirst_none _ _ hno]
+    simp only
+    rw [parseRes_format _ _ _ hname.1 hdall, hasm, hname.2]
+
+/-- non-vacuity of `parse_format`: `A-PO4#3` and chainless `PHE45` are well-formed -/
+example : wellFormed { chain := some "A".toList, resname := some "PO4".toList, resid := some 3, icode := none } = true := by
+  decide
+example : formatSpec { chain := some "A".toList, resname := some "PO4".toList, resid := some 3, icode := none }
+    = "A-PO4#3".toList := by decide
+example : formatSpec { chain := none, resname := some "PO4".toList, resid := none, icode := none }
+    = "PO4#".toList := by decide
+
+/-- **Characterisation of the parser on arbitrary strings.**  The string is cut at its first `-`
+(if any) into chain and rest; the rest is cut at its last `#` (if any) into name and number text,
+otherwise at the start of its maximal digit suffix; `assemble` drops empty pieces and reads the
+number with `int`. -/
+theorem parse_characterisation (s : Str) :
+    ∃ (chain : Option Str) (res name idstr : Str),
+      ((chain = none ∧ res = s ∧ '-' ∉ s) ∨ (∃ c, chain = some c ∧ s = c ++ '-' :: res ∧ '-' ∉ c)) ∧
+      ((res = name ++ '#' :: idstr ∧ '#' ∉ idstr) ∨
+       ('#' ∉ res ∧ res = name ++ idstr ∧ (∀ c ∈ idstr, isDigit c = true) ∧ endsInDigit name = false)) ∧
+      parseSpec s = assemble chain name idstr := by
+  unfold parseSpec
+  cases hs : splitFirst '-' s with
+  | some p =>
+    obtain ⟨c, r⟩ := p
+    obtain ⟨e, hn⟩ := splitFirst_some _ _ _ _ hs
+    simp only
+    rcases parseRes_cases (some c) r with ⟨name, idstr, e1, h1, h2⟩ | ⟨h0, name, idstr, e1, h1, h2, h3⟩
+    · exact ⟨some c, r, name, idstr, Or.inr ⟨c, rfl, e, hn⟩, Or.inl ⟨e1, h1⟩, h2⟩
+    · exact ⟨some c, r, name, idstr, Or.inr ⟨c, rfl, e, hn⟩, Or.inr ⟨h0, e1, h1, h2⟩, h3⟩
+  | none =>
+    have hn := splitFirst_eq_none _ _ hs
+    simp only
+    rcases parseRes_cases none s with ⟨name, idstr, e1, h1, h2⟩ | ⟨h0, name, idstr, e1, h1, h2, h3⟩
+    · exact ⟨none, s, name, idstr, Or.inl ⟨rfl, rfl, hn⟩, Or.inl ⟨e1, h1⟩, h2⟩
+    · exact ⟨none, s, name, idstr, Or.inl ⟨rfl, rfl, hn⟩, Or.inr ⟨h0, e1, h1, h2⟩, h3⟩
+
+/-- what `assemble` does with the pieces: no number text -/
+theorem assemble_without_number (chain : Option Str) (name : Str) :
+    assemble chain name [] = .ok { chain := chain, resname := nonEmpty name, resid := none, icode := none } :=
+  assemble_nil chain name
+
+/-- … and with a non-empty string of digits: its decimal value -/
+theorem assemble_with_digits (chain : Option Str) (name ds : Str) (hne : ds ≠ [])
+    (h : ∀ c ∈ ds, isDigit c = true) :
+    assemble chain name ds =
+      .ok { chain := chain, resname := nonEmpty name, resid := some (digitsVal ds : Int), icode := none } :=
+  assemble_digits chain name ds hne h
+
+/-- The documented ambiguity: without `#` a name ending in digits loses them to the number. -/
+theorem parse_PO4 :
+    parseSpec "PO4".toList = .ok { chain := none, resname := some "PO".toList, resid := some 4, icode := none } ∧
+    parseSpec "PO4#".toList = .ok { chain := none, resname := some "PO4".toList, resid := none, icode := none } ∧
+    parseSpec "PO4#3".toList = .ok { chain := none, resname := some "PO4".toList, resid := some 3, icode := none } ∧
+    parseSpec "A-PHE45".toList = .ok { chain := some "A".toList, resname := some "PHE".toList, resid := some 45, icode := none } ∧
+    parseSpec "-ALA".toList = .ok { chain := some [], resname := some "ALA".toList, resid := none, icode := none } ∧
+    parseSpec "ALA#x".toList = .valueError := by
+  decide
+
 end C19
